@@ -147,8 +147,12 @@ def units(world):
                 out2.append(("result-has-maximal-score", ["C14"], And(*[x.attrs["score"] <= r.attrs["score"] for x in stream])))
             return out2
         tag = "None-element" if none_elem else "n=%d%s" % (n, ",debug" if debug else "")
-        return FuncUnit("ctparse.ctparse[%s]" % tag, ["ctparse.ctparse"], ["C01", "C03", "C10", "C13", "C14", "C12"],
-                        setup, call, ens, prop_map={"safety": ["C01"], "frame": ["C12"]})
+        u = FuncUnit("ctparse.ctparse[%s]" % tag, ["ctparse.ctparse"], ["C01", "C03", "C10", "C13", "C14", "C12"],
+                     setup, call, ens, prop_map={"safety": ["C01"], "frame": ["C12"]})
+        if n >= 2 and not debug and not none_elem:
+            u.bounded_desc = "list.sort / selection executed for a stream of exactly %d candidates with symbolic scores" % n
+            u.bounded_except = ("arguments-forwarded-to-the-stream",)
+        return u
     def mk_ctparse_defaults():
         """ctparse(txt) with every option omitted: what reaches the stream are the documented
         defaults, and the reference time is still undetermined (None -> read at call time)"""
